@@ -370,3 +370,56 @@ func VH_C09_ReaderCloseIdle() {
 	vhAssert(done3, "blocked-read-returns-when-the-reader-is-closed")
 	vhReach("c09-reader-close-idle")
 }
+
+// C09-H8 (lock hand-off schedule): Writer.Close and two WriteMessages calls from three goroutines, interleaved at
+// every Unlock. Every call returns; a write returns nil only if its message is in the log, otherwise an error; after
+// Close returned nothing is left running and nothing more is sent.
+func VH_C09_WriterCloseHandoff(async int) {
+	vhConcreteClock(true)
+	vhHandoff(true)
+	tr := &vhTransport{partitions: 1, budget: 1, fixed: []int{vhAcked, vhAcked, vhAcked, vhAcked, vhAcked, vhAcked}}
+	w := &Writer{Addr: TCP("vh:9092"), Topic: "t", MaxAttempts: 1, BatchSize: 1, BatchTimeout: 10 * time.Millisecond, Transport: tr, RequiredAcks: RequireAll, Async: async == 1}
+	ctx := context.Background()
+	errs := make([]error, 2)
+	fin := 0
+	for g := 0; g < 2; g++ {
+		g := g
+		go func() {
+			errs[g] = w.WriteMessages(ctx, Message{Value: []byte{byte(1 + g)}})
+			fin++
+		}()
+	}
+	closed := false
+	go func() { w.Close(); closed = true; fin++ }()
+	for i := 0; i < 10 && fin < 3; i++ {
+		vhRunAll()
+		time.Sleep(20 * time.Millisecond)
+	}
+	vhAssert(fin == 3 && closed, "close-and-every-write-return")
+	inLog := map[int]int{}
+	for _, j := range tr.journal {
+		if j.applied {
+			for _, id := range j.ids {
+				inLog[id]++
+			}
+		}
+	}
+	for g := 0; g < 2; g++ {
+		vhAssert(inLog[1+g] <= 1, "no-duplicate-without-a-lost-acknowledgement")
+		if async == 0 && errs[g] == nil {
+			vhAssert(inLog[1+g] == 1, "a-write-that-returned-nil-is-in-the-log")
+		}
+		if errs[g] != nil {
+			vhAssert(errors.Is(errs[g], io.ErrClosedPipe), "a-write-refused-by-close-reports-ErrClosedPipe")
+		}
+	}
+	sent := len(tr.journal)
+	vhSettle()
+	time.Sleep(50 * time.Millisecond)
+	vhSettle()
+	vhAssert(len(tr.journal) == sent, "nothing-is-sent-after-close-returned")
+	for i := 1; i <= vhSpawned(); i++ {
+		vhAssert(vhCoroDone(i), "no-goroutine-of-the-writer-outlives-close")
+	}
+	vhReach("c09-writer-close-handoff")
+}
